@@ -291,6 +291,8 @@ def judge_gene_models(ctx, res, case):
         return None
     obs = {"create": rep}
     before = dbside.dump(db)
+    schema = lambda: [tuple(x) for x in db.conn.execute("SELECT type, name, tbl_name, sql FROM sqlite_master ORDER BY type, name")]
+    schema_before = schema()
     ma = kw.get("merge_attributes", True)
     judge = not case.get("deep")
     want = expected_introns(models, ma)
@@ -353,6 +355,10 @@ def judge_gene_models(ctx, res, case):
                         "prefixed by the site type", returned=bad[:3], expected=miss[:3])
     if dbside.dump(db) != before:
         common.fail(res, case, "database_changed", "create_introns / create_splice_sites changed the database")
+    elif schema() != schema_before:
+        common.fail(res, case, "database_changed",
+                    "create_introns / create_splice_sites changed the database (its schema objects: tables / indexes)",
+                    before=[x[:2] for x in schema_before], after=[x[:2] for x in schema()])
     return obs
 
 
